@@ -301,6 +301,7 @@ pub fn run(tier: Tier) {
             None
         }
     });
+    crate::e5::run_part(&mut ctx, "keygen2");
     ctx.sample(json!({"variant":512,"seed":"LE64(0)||0^24","checks":["f*G-g*F=q","f invertible","h*f=g","leaves in range","leaves = sigma/GSO"]}));
     ctx.assume("seeds outside the enumerated window are not covered; ntru_gen is a rejection loop whose acceptance tests are the property's preconditions, the window contains seeds on which each rejection branch is taken");
     ctx.assume("dense Gram-Schmidt in f64 (modified Gram-Schmidt); tolerance 1e-9 relative, measured agreement ~1e-14");
@@ -310,6 +311,9 @@ pub fn run(tier: Tier) {
 pub fn replay(case: &Value) -> Result<Option<String>, String> {
     if case.get("kind").and_then(|k| k.as_str()) == Some("history") {
         return crate::history::replay(case);
+    }
+    if case.get("kind").and_then(|k| k.as_str()).map(|k| k == "e5" || k == "e5-setup").unwrap_or(false) {
+        return crate::e5::replay(case);
     }
     if case.get("kind").and_then(|k| k.as_str()) == Some("norm-component") {
         return Err("re-run ./vf check C04 (the component family is enumerated deterministically)".into());
